@@ -577,12 +577,29 @@ var rtNeutralisers = []neutraliser{
 		if len(under) == 0 {
 			return c, false
 		}
+		// ... and one name per binding, so that no stale binding can be hit
+		type key struct {
+			name  string
+			inner zed.Type
+		}
+		assigned := map[key]string{}
+		count := map[string]int{}
 		return rewriteSeq(c, func() *rewriter {
-			return &rewriter{nameOrig: func(orig *zed.TypeNamed, _ zed.Type) string {
-				if under[orig] {
-					return "err_" + orig.Name
+			return &rewriter{nameOrig: func(orig *zed.TypeNamed, inner zed.Type) string {
+				if !under[orig] {
+					return orig.Name
 				}
-				return orig.Name
+				k := key{orig.Name, inner}
+				if n, ok := assigned[k]; ok {
+					return n
+				}
+				count[orig.Name]++
+				n := "err_" + orig.Name
+				if count[orig.Name] > 1 {
+					n = fmt.Sprintf("err_%s_%d", orig.Name, count[orig.Name])
+				}
+				assigned[k] = n
+				return n
 			}}
 		})
 	}},
